@@ -140,8 +140,18 @@ def node_path(root: Path, n: int) -> Path:
     return root / "data" / f"n{n}.txt"
 
 
-def module_path(root: Path, m: int) -> Path:
-    return root / f"task_m{m}.py"
+def module_subdir(spec, m: int):
+    """optional spec field "subdirs": {module: directory}: the module lives in that sub-directory of the project, next to a
+    pyproject.toml WITHOUT a [tool.pytask.ini_options] section"""
+    if not spec:
+        return None
+    sd = spec.get("subdirs", {})
+    return sd.get(str(m), sd.get(m))
+
+
+def module_path(root: Path, m: int, spec=None) -> Path:
+    sub = module_subdir(spec, m)
+    return (root / sub if sub else root) / f"task_m{m}.py"
 
 
 def src_node(m: int) -> int:
@@ -187,7 +197,8 @@ def render_module(spec, m: int, src_value=None) -> str:
         "import pytask",
         "from pytask import Product, task, PathNode, PythonNode, DirectoryNode",
         "import _verif_rt as rt",
-        "DATA = Path(__file__).resolve().parent / 'data'",
+        ("DATA = Path(__file__).resolve().parent.parent / 'data'" if module_subdir(spec, m) else
+         "DATA = Path(__file__).resolve().parent / 'data'"),
         f"SRC = {module_content(spec, m) if src_value is None else src_value}",
         "",
     ]
@@ -234,6 +245,25 @@ def render_module(spec, m: int, src_value=None) -> str:
             else:
                 deco_kwargs.append("after=" + repr(" or ".join(tname(a) for a in aft)))
         params = []
+        # optional spec field "bag": {"kind": "dict"|"list"|"tuple", "deps": [...]}: these dependencies are passed inside ONE
+        # container argument that also holds plain Python values; the body unpacks it (the set of dependencies is unchanged)
+        bag = t.get("bag") or {}
+        bag_ok = (beh in ("ok", "early", "late") or beh.startswith("omit")) and not setup_fault
+        bag_deps = [n for n in deps if n in bag.get("deps", [])] if bag_ok else []
+        all_deps = deps
+        deps = [n for n in all_deps if n not in bag_deps]
+        bag_expr = {}
+        if bag_deps:
+            bn = f"bag{tid}"
+            if bag.get("kind", "dict") == "dict":
+                lit = "{'alpha': 2, " + ", ".join(f"'d{n}': DATA / 'n{n}.txt'" for n in bag_deps) + ", 'omega': 'w'}"
+                bag_expr = {n: f"{bn}['d{n}']" for n in bag_deps}
+                ann = "dict"
+            else:
+                items = ["2"] + [f"DATA / 'n{n}.txt'" for n in bag_deps] + ["'w'"]
+                lit = ("[" + ", ".join(items) + "]") if bag["kind"] == "list" else ("(" + ", ".join(items) + ",)")
+                bag_expr = {n: f"{bn}[{i + 1}]" for i, n in enumerate(bag_deps)}
+                ann = "list" if bag["kind"] == "list" else "tuple"
         dep_names = [f"d{n}" for n in deps]
         prod_names = [f"p{i}" for i in range(len(prods))]
         if style == "kwargs" and deps:
@@ -251,6 +281,8 @@ def render_module(spec, m: int, src_value=None) -> str:
                 params.append(f"hv: Annotated[int, PythonNode(value={tid}, hash=rt.make_bad_hash('{tid}:hv'))]")
         else:
             params += [f"{nm}: Path = DATA / 'n{n}.txt'" for nm, n in zip(dep_names, deps)]
+        if bag_deps:
+            params.append(f"{bn}: {ann} = {lit}")
         if t.get("hashed"):
             # optional: a constant hashed Python value (tuple holding a str and a Path) as an additional tracked dependency
             params.append(f"hv{tid}: Annotated[tuple, PythonNode(value=('k{tid}', {tid}, Path('v{tid}')), hash=True)]")
@@ -308,7 +340,7 @@ def render_module(spec, m: int, src_value=None) -> str:
         L.append(f"def {tname(tid)}({', '.join(params)}):")
         # the body of a load-fault task does not read the faulty dependency: were the function invoked in spite of the
         # failing load, it would run to completion (and the oracle would see a fired fault without a FAIL report)
-        body_deps = [nm for nm, n in zip(dep_names, deps) if not (beh == "loadfail" and n == faulty_dep)]
+        body_deps = [bag_expr.get(n, f"d{n}") for n in all_deps if not (beh == "loadfail" and n == faulty_dep)]
         dirs_arg = f", dirs=[{', '.join(dir_names)}]" if dir_names else ""
         if is_gen:
             kid = 50 + tid
@@ -347,7 +379,8 @@ def materialise(root: Path, spec, clock: Clock | None = None):
     (root / "_verif_rt.py").write_text(RT)
     (root / "data").mkdir(exist_ok=True)
     for m in sorted({t["module"] for t in spec["tasks"]}):
-        write_file(module_path(root, m), render_module(spec, m), clock)
+        _ensure_subdir(root, spec, m)
+        write_file(module_path(root, m, spec), render_module(spec, m), clock)
     links = {int(x) for x in spec.get("links", [])}   # optional: input nodes that are symbolic links; edits go through to the target
     for n, c in spec.get("inputs", {}).items():
         if int(n) in links:
@@ -360,17 +393,28 @@ def materialise(root: Path, spec, clock: Clock | None = None):
         write_file(root / name, text, clock)
 
 
+def _ensure_subdir(root: Path, spec, m: int):
+    sub = module_subdir(spec, m)
+    if sub:
+        (root / sub).mkdir(parents=True, exist_ok=True)
+        pp = root / sub / "pyproject.toml"
+        if not pp.exists():
+            pp.write_text('[project]\nname = "' + sub + '"\nversion = "0"\n')   # no [tool.pytask.ini_options] section
+
+
 def rewrite_modules(root: Path, spec, clock: Clock | None, only=None):
     mods = sorted({t["module"] for t in spec["tasks"]})
-    for p in root.glob("task_m*.py"):
+    subs = {v for v in spec.get("subdirs", {}).values()}
+    for p in list(root.glob("task_m*.py")) + [q for sd in sorted(subs) for q in (root / sd).glob("task_m*.py")]:
         m = int(p.stem[6:])
-        if m not in mods:
+        if m not in mods or p != module_path(root, m, spec):
             p.unlink()
     for m in mods:
         if only is not None and m not in only:
             continue
         txt = render_module(spec, m)
-        p = module_path(root, m)
+        _ensure_subdir(root, spec, m)
+        p = module_path(root, m, spec)
         if not p.exists() or p.read_text() != txt:
             write_file(p, txt, clock)
 
